@@ -967,8 +967,9 @@ fn q_astar(
         cfg
     };
     if !m.alive(sid) || !m.alive(tid) {
+        // also for start == end: a "path" made of a node that does not exist is no walk in the graph
         if sid == tid {
-            return Ok(TRIVIAL);
+            ctx.label("q: astar_path from a deleted node to itself");
         }
         match eng.astar_path(sid, tid, &mk_cfg(None)) {
             Ok(r) if r.path.is_none() => {},
